@@ -449,6 +449,21 @@ Definition check_defaults (re : ustring -> ustring -> bool) (T : space) (fuel : 
   | Some d => each (fun '(t, v) => validate_value re T fuel t v) (entry_default_checks self d)
   end.
 
+(* the shared generic default functions (DefaultImpl) check_defaults registers in TypeSpace.defaults for one entry:
+   one per checked default whose DefaultKind is Generic (defaults.rs: `type_space.defaults.insert(default_fn)`) *)
+Definition registered_generics (re : ustring -> ustring -> bool) (T : space) (fuel : nat) (self : id) : list gimpl :=
+  match get_det T self with
+  | None => []
+  | Some d =>
+      flat_map (fun '(t, v) => match validate_value re T fuel t v with ROk (KGeneric g) => [g] | _ => [] end)
+               (entry_default_checks self d)
+  end.
+Definition show_gimpl (g : gimpl) : string :=
+  match g with GBoolean => "Boolean" | GI64 => "I64" | GU64 => "U64" | GNZU64 => "NZU64" end%string.
+(* all entries of the space: what TypeSpace.defaults must contain after finalisation *)
+Definition all_registered (re : ustring -> ustring -> bool) (T : space) (fuel : nat) : list string :=
+  flat_map (fun '(i, _) => map show_gimpl (registered_generics re T fuel i)) (sp_entries T).
+
 (* ---- has_default (structs.rs:423-485): state of a non-required property ---- *)
 Definition has_default (d : option details) (default : option json) : pstate :=
   match d, default with
